@@ -285,7 +285,21 @@ func runStock(rc *RunCtx) {
 	}
 	stop := false
 	if usesChan {
-		sim.Spawn("consumer", func() { stockConsumer(ch, cnt, &stop) })
+		// the consumer may be away for a while: writes to the channel sink then block and time out,
+		// several of them at once when the sink is shared
+		away := tp.Choose(4, "consumer-away")
+		late := time.Duration(away) * 20 * time.Millisecond
+		if away == 3 {
+			// nobody reads the channel at all: every write beyond the buffer has to time out
+			usesChan = false
+		} else {
+			sim.Spawn("consumer", func() {
+				if late > 0 {
+					simrt.Sleep(late, "stock:consumer-away")
+				}
+				stockConsumer(ch, cnt, &stop)
+			})
+		}
 	}
 	rc.Desc = map[string]interface{}{"pipelines": pdesc, "senders": nSenders, "controls": nControl}
 	// run until only the consumer is left, then stop it
